@@ -13,6 +13,13 @@ open Sb.Poly Sb.Traj
 
 def f32Tok (s : String) : Option F32 := s.toNat?.map F32.ofBits
 
+/-- a duration in seconds reports `ms` milliseconds: the sum over 1000 up to two units in the last place of binary32 (the
+correctly rounded quotient `secF32 ms` is what the library computes; a product with 0.001f would be as good an answer) -/
+def secTokClose (tok : String) (ms : Nat) : Bool :=
+  match f32Tok tok with
+  | some (.fin x) => absR (x - secExact ms) ≤ secExact ms / 4194304
+  | _ => false
+
 def choose : Nat → Nat → Nat
   | _, 0 => 1
   | 0, _ + 1 => 0
@@ -148,7 +155,7 @@ def stepTraj (tr : Traj) (st : TrajRun) (q : String × String) : TrajRun :=
       | .error _ => st
       | .ok (_, ms) =>
         match atoks with
-        | [b] => if f32Tok b = some (.fin (secF32 ms)) then st else { st with err := some s!"duration sec: model {ratToString (secF32 ms)} impl bits {b}" }
+        | [b] => if secTokClose b ms then st else { st with err := some s!"duration sec: model {ratToString (secF32 ms)} impl bits {b}" }
         | _ => { st with err := some "bad E answer" }
     else if k = 'S' then
       match (do let p0 ← rewind secF32 tr; totalDurationMsec secF32 p0) with
@@ -158,7 +165,7 @@ def stepTraj (tr : Traj) (st : TrajRun) (q : String × String) : TrajRun :=
         | [rc, m, secs, same] =>
           if rc = "0" ∧ m = toString ms ∧ same = "=" then
             -- the statistics' duration in seconds is the same sum, in seconds (as the trajectory's own query 'E')
-            (if f32Tok secs = some (.fin (secF32 ms)) then st
+            (if secTokClose secs ms then st
              else { st with err := some s!"stats duration in seconds: model {ratToString (secF32 ms)} (= {ms} ms) impl bits {secs}" })
           else { st with err := some s!"stats duration: model {ms} (whatever else is requested with it) impl {ans}" }
         | _ => { st with err := some "bad S answer" }
